@@ -64,6 +64,27 @@ def r1_truth_tables(ctx):
     # combinators: evaluate over all (L, R)
     for var, comb in (('CombinedAnd', lambda l, r: l and r), ('CombinedOr', lambda l, r: l or r)):
         ps = by_variant.get(var, [])
+        if len(ps) == 1:
+            # iterator form: `[lhs, rhs].into_iter().all(|l| l.applies(count, time))` (any for Or) — left to right, short-circuiting
+            r = peel(path_ret_resolved(f, ps[0][0]))
+            want = 'all' if 'And' in var else 'any'
+            okf = False
+            det = show(r)[:200]
+            if r[0] == 'call' and r[1].endswith('Iterator::' + want) and len(r[2]) == 2:
+                arr = [x for x in walk(r[2][0]) if x[0] == 'agg' and x[1] == 'array' and len(x[2]) == 2]
+                cl = peel(r[2][1])
+                g = ctx.P.fns.get(cl[1][len('closure:'):]) if cl[0] == 'agg' and str(cl[1]).startswith('closure:') else None
+                if arr and g:
+                    ops = [_operand_index(canon(x), var) for x in arr[0][2]]
+                    body = [peel(subst_captures(t, cl[2])) for _, t in ret_trees(g)]
+                    body_ok = bool(body) and all(t[0] == 'call' and t[1] in REC and any(y[0] == 'arg' and y[1] == 2 for y in walk(t[2][0])) and
+                                                 canon(t[2][1]) == A_COUNT and canon(t[2][2]) == A_TIME for t in body)
+                    okf = ops == [0, 1] and body_ok
+            ctx.orderings += 4
+            ctx.check(okf, 'table-%s' % var,
+                      'RuntimeLimit::%s(l, r) applies iff l.applies(count,time) %s r.applies(count,time), both evaluated on the same arguments' % (var, '&&' if 'And' in var else '||'),
+                      f.where(), {'form': 'Iterator::%s over [l, r]' % want, 'tree': det})
+            continue
         if not ctx.floor('paths for %s' % var, len(ps), 2):
             continue
         bad = []
